@@ -464,7 +464,7 @@ func c16Start(e *c16Env, ids *c16IDs, obs []c16Obs, rq c16Req) *c16Running {
 			o.req.Addrs = append(o.req.Addrs, fmt.Sprintf("bytes:%x", a))
 		}
 	}
-	cli, srvS := c16NewStreamPair(true, &c16ReqConn{remotePeer: requester.id, remoteAddr: ob.addr})
+	cli, srvS := c16NewStreamPair(true, &c16ReqConn{localPeer: ids.other.id, remotePeer: requester.id, remoteAddr: ob.addr})
 	e.mu.Lock()
 	o.stream = len(e.streams)
 	e.streams = append(e.streams, srvS)
